@@ -11,6 +11,8 @@ pub struct ConcPlan {
 	pub schedules: u64,
 	pub gen: GenCfg,
 	pub label: &'static str,
+	/// one clean raw-lock panic per episode (thread and raw-op index drawn per item)
+	pub faults: bool,
 }
 
 pub fn policy_of(i: u64) -> Policy {
@@ -48,6 +50,12 @@ pub fn run(cfg: &RunCfg, plan: &ConcPlan) -> Report {
 			keep_log: cfg.only.is_some(),
 			try_max: 60,
 			poison_model: plan.gen.allow_panic,
+			fault: if plan.faults {
+				let mut fr = Rng::new(hash64(cfg.seed ^ 0xFA17, i));
+				Some((fr.below(prog.threads.len() as u32), fr.below(14)))
+			} else {
+				None
+			},
 		};
 		let res = run_concurrent(&prog, &ec);
 		rep.evaluations += 1;
@@ -62,6 +70,8 @@ pub fn run(cfg: &RunCfg, plan: &ConcPlan) -> Report {
 		rep.count("closures_run", res.tstats.closures);
 		rep.count("nonacq_calls", res.tstats.nonacq_calls);
 		rep.count("panics_injected", res.tstats.panics_injected);
+		rep.count("acquisitions_made_during_an_unwind", res.tstats.in_unwind);
+		rep.count("raw_lock_faults_fired", res.stats.faults_fired);
 		rep.count("final_payloads_checked", res.final_versions_checked as u64);
 		match &res.aborted {
 			None => rep.count("episodes_completed", 1),
